@@ -83,6 +83,18 @@ time.sleep(0.5)
 res['reaper_alive_mid'] = srv.subs.is_alive()
 res['alive'] = len(srv.subs._alive)
 srv.shutdown(); srv.server_close()
+# a table in which EVERY board is pinned to an address: a write request from any other host is still refused with ERROR
+import ipaddress
+pinned = {0x300 + i: Board(0x300 + i, Path(p), 1, ipaddress.ip_address('127.0.0.9')) for i, p in enumerate(images[:2])}
+srv2 = BootServer(('127.0.0.1', 0), pinned)
+th2 = threading.Thread(target=srv2.serve_forever, kwargs={'poll_interval': 0.01}, daemon=True)
+th2.start()
+res['wrq_pinned'] = []
+for req in (b'\0\2300/new.txt\0octet\0', b'\0\2301/config.txt\0netascii\0', b'\0\2nosuch/x\0octet\0'):
+    c = Client(srv2.server_address, 1.0)
+    c.s.sendto(req, srv2.server_address)
+    r = c.recv(); res['wrq_pinned'].append(r[0][:4].hex() if r else None); c.close()
+srv2.shutdown(); srv2.server_close()
 print(json.dumps(res))
 '''
 
@@ -196,6 +208,10 @@ def one_round(ctx, build, rnd):
             return
         if any(w is None or not w.startswith('0005') for w in res['wrq']):
             ctx.violation('boot.serve/wrq-not-refused-real', f'write requests answered by {res["wrq"]}', dict(result=res))
+            return
+        if any(w is None or not w.startswith('0005') for w in res.get('wrq_pinned', [])):
+            ctx.violation('boot.serve/wrq-not-refused-real', f'a server whose boards are all pinned to an address answered write requests from '
+                          f'another host by {res["wrq_pinned"]} (None = no answer) instead of ERROR packets', dict(result=res))
             return
         for i, name, mode, steps, finished, sha, err in res['reads']:
             names = imgs[i][1]
